@@ -356,7 +356,8 @@ def _one_directive(src, toks, s, e, kwi, kw, body_open, start, end, path, name, 
     rules_used.add('R8')
   elif name in ('replace', 'replace*'):
     spec, _, why = arg.partition(' ## ')
-    old, sep, new = spec.partition(' => ')
+    # ` ==>> ` is the separator when the old text itself contains ` => ` (match arms)
+    old, sep, new = spec.partition(' ==>> ') if ' ==>> ' in spec else spec.partition(' => ')
     if not sep:
       raise ExtractError('bad @replace %r' % arg)
     rule = why.strip().split(':')[0].strip() if why.strip() else ''
